@@ -63,6 +63,8 @@ fn execute(ctx: &Ctx, c: &Cfg) -> Run {
     global.push("--terminal".into());
   }
   let mut sim = None;
+  let mut sim2 = None;
+  let mut raw: Option<Vec<Vec<u8>>> = None;
   let mut reference = None;
   // `--open`: a talkative desktop launcher comes first in PATH; whatever it prints must not reach imdl's own streams
   let mut launcher = false;
@@ -140,6 +142,28 @@ fn execute(ctx: &Ctx, c: &Cfg) -> Run {
       reference = Some(vec![]);
       vec!["torrent", "announce", "--input", "a.torrent"].into_iter().map(String::from).collect()
     }
+    ("announce-two-trackers", false) => {
+      // two trackers that both answer and have a peer in common: one line per peer, not per mention
+      let mut p1 = vec![0, 0, 7, 8, 0, 0, 0, 1, 0, 0, 0, 2];
+      p1.extend_from_slice(&[10, 0, 0, 1, 0x1a, 0xe1, 10, 0, 0, 2, 0, 80]);
+      let mut p2 = vec![0, 0, 7, 8, 0, 0, 0, 1, 0, 0, 0, 2];
+      p2.extend_from_slice(&[10, 0, 0, 2, 0, 80, 10, 0, 0, 3, 0, 81]);
+      let s1 = Sim::start(false, vec![Resp::Correct(vec![1, 2, 3, 4, 5, 6, 7, 8])], vec![Resp::Correct(p1)]);
+      let s2 = Sim::start(false, vec![Resp::Correct(vec![8, 7, 6, 5, 4, 3, 2, 1])], vec![Resp::Correct(p2)]);
+      let info = B::dict(vec![("name", B::s("data")), ("piece length", B::Int(16384)), ("pieces", B::Bytes(vec![1; 20])), ("length", B::Int(5))]);
+      let tiers = B::List(vec![B::List(vec![B::s(&format!("udp://127.0.0.1:{}/announce", s1.addr.port()))]), B::List(vec![B::s(&format!("udp://127.0.0.1:{}/announce", s2.addr.port()))])]);
+      sb.write("a.torrent", &B::dict(vec![("info", info), ("announce", B::s(&format!("udp://127.0.0.1:{}/announce", s1.addr.port()))), ("announce-list", tiers)]).encode());
+      sim = Some(s1);
+      sim2 = Some(s2);
+      vec!["torrent", "announce", "--input", "a.torrent"].into_iter().map(String::from).collect()
+    }
+    ("announce-two-trackers", true) => vec!["torrent", "announce", "--input", "missing.torrent"].into_iter().map(String::from).collect(),
+    ("usage-non-utf8-value", _) => {
+      // the value of a text option is not UTF-8: a usage error like any other
+      raw = Some(vec![b"torrent".to_vec(), b"create".to_vec(), b"--input".to_vec(), b"data".to_vec(), b"--output".to_vec(), b"-".to_vec(),
+        [b"--comment".to_vec(), b"--name".to_vec(), b"--source".to_vec(), b"--glob".to_vec()][(c.quiet as usize) * 2 + c.terminal as usize].clone(), b"caf\xe9".to_vec()]);
+      vec![]
+    }
     ("announce-no-peers", true) => vec!["torrent", "announce", "--input", "bad.torrent"].into_iter().map(String::from).collect(),
     ("link-open", false) => {
       launcher = true;
@@ -173,7 +197,10 @@ fn execute(ctx: &Ctx, c: &Cfg) -> Run {
   };
   let mut args = global;
   args.extend(sub);
-  let mut cmd = Cmd::args_owned(&ctx.imdl, args).cwd(&sb.root);
+  let mut cmd = match raw {
+    Some(r) => Cmd::args_bytes(&ctx.imdl, args.iter().map(|a| a.as_bytes().to_vec()).chain(r).collect()).cwd(&sb.root),
+    None => Cmd::args_owned(&ctx.imdl, args).cwd(&sb.root),
+  };
   match c.env {
     "NO_COLOR" => cmd = cmd.env("NO_COLOR", "1").env("TERM", "xterm-256color"),
     "TERM=dumb" => cmd = cmd.env("TERM", "dumb"),
@@ -193,18 +220,21 @@ fn execute(ctx: &Ctx, c: &Cfg) -> Run {
   if let Some(s) = sim {
     let _ = s.finish();
   }
+  if let Some(s) = sim2 {
+    let _ = s.finish();
+  }
   Run { out, reference }
 }
 
 pub fn run(ctx: &Ctx) -> Report {
   let mut report = Report::new(
-    "complete enumeration with real pipes: {create -o -, create to file, create --open and link --open (a talkative launcher first in PATH), link, show --json, show, verify, announce (loopback tracker; two peers, no peers), piece-length, completions, five kinds of usage error (unknown flag, no subcommand, `torrent` alone, missing value, bad value), --version} x success/failure x --quiet x --color {auto,always,never} \
+    "complete enumeration with real pipes: {create -o -, create to file, create --open and link --open (a talkative launcher first in PATH), link, show --json, show, verify, announce (loopback tracker; two peers, no peers, two trackers with a peer in common), piece-length, completions, six kinds of usage error (unknown flag, no subcommand, `torrent` alone, missing value, bad value, a text option whose value is not UTF-8), --version} x success/failure x --quiet x --color {auto,always,never} \
      x --terminal x {NO_COLOR, TERM=dumb, TERM=xterm}; stdout compared byte-for-byte with the expected payload, stderr emptiness, escape sequences, exit status; non-trivial = any flag set or failure; distinct by configuration",
   );
   report.exhaustive = ctx.replay.is_none();
   report.correspondences.push("C18.streams: stderr activity / stdout styling of the real binary = Imdlv.Streams.{outStream,errStream}; exit status = exitCode".into());
   let mut cfgs = Vec::new();
-  for scenario in ["create-stdout", "create-file", "create-open", "link", "link-open", "show-json", "show", "verify", "announce", "announce-no-peers", "piece-length", "completions", "usage", "usage-no-subcommand", "usage-torrent-alone", "usage-missing-value", "usage-bad-value", "version"] {
+  for scenario in ["create-stdout", "create-file", "create-open", "link", "link-open", "show-json", "show", "verify", "announce", "announce-no-peers", "announce-two-trackers", "piece-length", "completions", "usage", "usage-no-subcommand", "usage-torrent-alone", "usage-missing-value", "usage-bad-value", "usage-non-utf8-value", "version"] {
     for fail in [false, true] {
       if fail && (matches!(scenario, "piece-length" | "version") || scenario.starts_with("usage")) {
         continue;
@@ -252,6 +282,13 @@ pub fn run(ctx: &Ctx) -> Report {
         _ => None,
       });
       match (c.scenario, &reference) {
+        ("announce-two-trackers", _) => {
+          let mut lines: Vec<&str> = std::str::from_utf8(&plain_stdout).unwrap_or("").lines().collect();
+          lines.sort();
+          if lines != vec!["10.0.0.1:6881", "10.0.0.2:80", "10.0.0.3:81"] {
+            pf = pf.or(Some(format!("two trackers with a peer in common: stdout is not one ip:port line per peer: {:?}", String::from_utf8_lossy(&o.stdout))));
+          }
+        }
         ("announce", _) => {
           let mut lines: Vec<&str> = std::str::from_utf8(&plain_stdout).unwrap_or("").lines().collect();
           lines.sort();
